@@ -32,7 +32,9 @@ struct fs_op
     std::string path, path2;    // path2: rename target
     bool trunc = false;
     std::string data;           // write
+    long offset = -1;           // write: position in the file (-1: at the end)
     long length = 0;            // truncate
+    bool failed = false;        // the call returned an error and changed nothing (it still is a point at which the process can be killed)
 };
 
 struct fs_state
@@ -41,6 +43,7 @@ struct fs_state
     std::string dir;                      // only paths below this directory are logged
     std::vector<fs_op> log;
     std::map<int, std::string> fds;       // tracked descriptors
+    std::map<int, bool> append;           // descriptor opened in append mode
     long kill_at = -1;                    // operation index at which the process is killed
     long kill_bytes = 0;                  // for a write: bytes that reach the file before the kill
     bool offset_mismatch = false;
@@ -79,10 +82,21 @@ inline std::map<std::string, std::string> fs_replay(std::map<std::string, std::s
         auto const& op = log[i];
         bool const partial = i == upto;
         if (partial && (op.kind != fs_write || bytes == 0)) break;
+        if (op.failed) continue;
         switch (op.kind)
         {
         case fs_open: if (op.trunc || !state.count(op.path)) state[op.path] = ""; break;
-        case fs_write: state[op.path] += partial ? op.data.substr(0, bytes) : op.data; break;
+        case fs_write:
+        {
+            // the bytes land at the position the descriptor had (a descriptor kept open across a seek or a rename
+            // overwrites in place), or at the end of the file
+            std::string const d = partial ? op.data.substr(0, bytes) : op.data;
+            std::string& f = state[op.path];
+            std::size_t const at = op.offset < 0 ? f.size() : static_cast<std::size_t>(op.offset);
+            if (f.size() < at + d.size()) f.resize(at + d.size(), '\0');
+            f.replace(at, d.size(), d);
+            break;
+        }
         case fs_rename: if (op.path != op.path2) { state[op.path2] = state[op.path]; state.erase(op.path); } break;   // renaming a file onto itself does nothing
         case fs_unlink: state.erase(op.path); break;
         case fs_truncate: state[op.path].resize(op.length); break;
@@ -110,7 +124,9 @@ inline FILE* vf_fopen_common(char const* name, char const* path, char const* mod
         vf::fs_op op; op.kind = vf::fs_open; op.path = path; op.trunc = std::strchr(mode, 'w') != nullptr;
         vf::fs().log.push_back(op);
         vf::fs().fds[fileno(f)] = path;
+        vf::fs().append[fileno(f)] = std::strchr(mode, 'a') != nullptr;
     }
+    else { vf::fs_op op; op.kind = vf::fs_open; op.path = path; op.failed = true; vf::fs().log.push_back(op); }
     return f;
 }
 
@@ -143,7 +159,9 @@ inline int vf_open_common(char const* name, char const* path, int flags, mode_t 
         vf::fs_op op; op.kind = vf::fs_open; op.path = path; op.trunc = (flags & O_TRUNC) != 0;
         vf::fs().log.push_back(op);
         vf::fs().fds[fd] = path;
+        vf::fs().append[fd] = (flags & O_APPEND) != 0;
     }
+    else { vf::fs_op op; op.kind = vf::fs_open; op.path = path; op.failed = true; vf::fs().log.push_back(op); }
     return fd;
 }
 
@@ -190,6 +208,8 @@ inline ssize_t vf_write_common(int fd, char const* data, size_t n)
         _exit(0);
     }
     vf::fs_op op; op.kind = vf::fs_write; op.path = it->second; op.data.assign(data, n);
+    // where the bytes go: the descriptor's position (lseek is not interposed, the position is simply read here)
+    op.offset = s.append[fd] ? -1 : static_cast<long>(::lseek(fd, 0, SEEK_CUR));
     ssize_t const rc = real(fd, data, n);
     if (rc != static_cast<ssize_t>(n)) s.offset_mismatch = true;   // short writes are not expected on a regular file
     s.log.push_back(op);
@@ -210,8 +230,20 @@ ssize_t writev(int fd, struct iovec const* iov, int cnt)
 ssize_t pwrite(int fd, void const* data, size_t n, off_t off)
 {
     auto& s = vf::fs();
-    if (s.active && s.fds.find(fd) != s.fds.end()) s.offset_mismatch = true;   // positional writes are not modelled
-    return vf::fs_real<ssize_t (*)(int, void const*, size_t, off_t)>("pwrite")(fd, data, n, off);
+    auto real = vf::fs_real<ssize_t (*)(int, void const*, size_t, off_t)>("pwrite");
+    auto it = s.fds.find(fd);
+    if (!s.active || it == s.fds.end()) return real(fd, data, n, off);
+    if (s.kill_at >= 0 && static_cast<long>(s.log.size()) == s.kill_at)
+    {
+        size_t const b = static_cast<size_t>(s.kill_bytes) < n ? static_cast<size_t>(s.kill_bytes) : n;
+        if (b) (void)!real(fd, data, b, off);
+        _exit(0);
+    }
+    vf::fs_op op; op.kind = vf::fs_write; op.path = it->second; op.data.assign(static_cast<char const*>(data), n); op.offset = static_cast<long>(off);
+    ssize_t const rc = real(fd, data, n, off);
+    if (rc != static_cast<ssize_t>(n)) s.offset_mismatch = true;
+    s.log.push_back(op);
+    return rc;
 }
 
 int rename(char const* a, char const* b)
@@ -219,14 +251,15 @@ int rename(char const* a, char const* b)
     auto real = vf::fs_real<int (*)(char const*, char const*)>("rename");
     if (!vf::fs_tracked(a) && !vf::fs_tracked(b)) return real(a, b);
     vf::fs_before(false);
-    if (vf::fs().renames_seen++ == vf::fs().fail_rename) { errno = ENAMETOOLONG; return -1; }   // injected environment fault
+    vf::fs_op op; op.kind = vf::fs_rename; op.path = a; op.path2 = b;
+    if (vf::fs().renames_seen++ == vf::fs().fail_rename) { op.failed = true; vf::fs().log.push_back(op); errno = ENAMETOOLONG; return -1; }   // injected environment fault
     int const rc = real(a, b);
-    if (rc == 0)
-    {
-        vf::fs_op op; op.kind = vf::fs_rename; op.path = a; op.path2 = b; vf::fs().log.push_back(op);
-        // descriptors that are still open on the renamed file now write to the new name
-        for (auto& fd : vf::fs().fds) if (fd.second == a) fd.second = b;
-    }
+    int const err = errno;
+    op.failed = rc != 0;
+    vf::fs().log.push_back(op);
+    // descriptors that are still open on the renamed file now write to the new name
+    if (rc == 0) for (auto& fd : vf::fs().fds) if (fd.second == a) fd.second = b;
+    errno = err;
     return rc;
 }
 
@@ -236,7 +269,9 @@ int unlink(char const* a)
     if (!vf::fs_tracked(a)) return real(a);
     vf::fs_before(false);
     int const rc = real(a);
-    if (rc == 0) { vf::fs_op op; op.kind = vf::fs_unlink; op.path = a; vf::fs().log.push_back(op); }
+    int const err = errno;
+    { vf::fs_op op; op.kind = vf::fs_unlink; op.path = a; op.failed = rc != 0; vf::fs().log.push_back(op); }
+    errno = err;
     return rc;
 }
 
@@ -246,7 +281,9 @@ int remove(char const* a)
     if (!vf::fs_tracked(a)) return real(a);
     vf::fs_before(false);
     int const rc = real(a);
-    if (rc == 0) { vf::fs_op op; op.kind = vf::fs_unlink; op.path = a; vf::fs().log.push_back(op); }
+    int const err = errno;
+    { vf::fs_op op; op.kind = vf::fs_unlink; op.path = a; op.failed = rc != 0; vf::fs().log.push_back(op); }
+    errno = err;
     return rc;
 }
 
@@ -258,7 +295,7 @@ int ftruncate(int fd, off_t len)
     if (!s.active || it == s.fds.end()) return real(fd, len);
     vf::fs_before(false);
     int const rc = real(fd, len);
-    if (rc == 0) { vf::fs_op op; op.kind = vf::fs_truncate; op.path = it->second; op.length = len; s.log.push_back(op); }
+    { vf::fs_op op; op.kind = vf::fs_truncate; op.path = it->second; op.length = len; op.failed = rc != 0; s.log.push_back(op); }
     return rc;
 }
 
@@ -268,7 +305,7 @@ int truncate(char const* a, off_t len)
     if (!vf::fs_tracked(a)) return real(a, len);
     vf::fs_before(false);
     int const rc = real(a, len);
-    if (rc == 0) { vf::fs_op op; op.kind = vf::fs_truncate; op.path = a; op.length = len; vf::fs().log.push_back(op); }
+    { vf::fs_op op; op.kind = vf::fs_truncate; op.path = a; op.length = len; op.failed = rc != 0; vf::fs().log.push_back(op); }
     return rc;
 }
 
